@@ -89,3 +89,17 @@ reg("C18",
     level_note="Trusted: fork() of a process that imported wavespectra and called nothing as the definition of 'fresh state'; xarray.identical as equality. Plain (non-sanitized) build so that both processes run the same binary.",
     rule="case = (Dataset|DataArray x observed operation x set of history step kinds); distinct = distinct keys; non-trivial = history has >= 1 step and both processes returned",
     must_observe=["history", "dataset_vs_efth_accessor"])
+
+reg("C16",
+    technique="runtime reference-model monitor: independent windowed (circular) mean and window min/max bounds over recorded smooth() results; grid-identity and ValueError monitors",
+    level_text="spec.smooth / smooth_spec results on generated datasets (sorted, rolled, reversed and shuffled stored direction order; full-circle and partial grids with exactly representable spacing; every odd window up to the grid size per dimension; extra dims; float32/64) are compared with an independent windowed mean that wraps on full-circle grids, keeps the input where the window does not fit, and must leave dims, coordinate values and their stored order untouched; even windows must raise ValueError. Held = on the executions observed.",
+    level_note="Trusted: numpy, ref_smooth in vf/checks/c16.py. Tolerance 1e-9 / 2e-5 of the spectrum maximum.",
+    rule="case = (stored order x dtype x nf x nd x full/partial x freq window x dir window x leading dims x class); distinct = distinct keys",
+    must_observe=["smooth", "grid_kept", "even_window", "window_one_identity"])
+
+reg("C08",
+    technique="runtime reference-model + invariant monitor: independent circular linear interpolant with the documented anchors and single conserving factor, coordinate/identity/non-negativity/zero-above-fmax/Hs invariants, rotate == circular shift",
+    level_text="spec.interp, interp_like, regrid_spec and rotate are run on generated source grids (sorted, rolled, reversed, shuffled directions, duplicated 0/360 bin) and targets (coarser, finer, shifted, below f_min, above f_max, direction grids of other sizes/offsets); the recorded output must have exactly the requested coordinates, be the identity on the source grid (zero spectra included), stay non-negative, be zero above the source f_max, have the source Hs, equal an independently computed circular linear interpolant times one factor per spectrum, and rotation by whole bins / 360 must be a circular shift / identity. Held = on the executions observed.",
+    level_note="Trusted: numpy.interp, vf/oracle/integrals.py for Hs. Target direction grids are uniform full-circle so that their bin width is defined; spectra whose interpolant has no energy are inconclusive for conservation.",
+    rule="case = (mode[:target kind] x source direction storage x nf x nd x leading dims x maintain_m0 x entry point) per invariant; rotate: (angle kind x storage x nf x nd); distinct = distinct keys",
+    must_observe=["coords_exact", "identity", "conservation", "reference", "nonnegative", "zero_above_fmax", "rotate", "rotate_coords"])
